@@ -261,8 +261,9 @@ def evalI : Nat → Node → M Obj
           if let .str _ := left then if r.tokType == "LPAREN" then stop (.unmodelled "pipe")
         let right ← eval fuel r
         if right.isError then return right
-        if let .array l := left then
-          noteHazard (op == "PLUS" && l.length > (← get).cfg.maxSmallArray) "large-array-append-shares-capacity" ""
+        if let .array els := left then
+          noteHazard (op == "PLUS" && els.length > (← get).cfg.maxSmallArray) "large-array-append-shares-capacity"
+            (match l with | .ident n => n | _ => "")
         evalInfixOp op left right
     | .int v => pure (.int v)
     | .float b => pure (.float b)
